@@ -14,6 +14,9 @@ type Scenario struct {
 	// NoBubble scenarios run on the real clock and the real file system (real leveldb under
 	// cache and keystore); they are sequential and need no kernel scheduling.
 	NoBubble bool
+	// SoftParks scenarios only wait through kernel helpers that tolerate goroutines stalled by
+	// the kernel (Do, Settle, WriteBurst): a third of their runs use such stalls.
+	SoftParks bool
 	// Enumerated scenarios take their case index from the seed instead of sampling.
 	Cases func() int
 }
